@@ -17,7 +17,19 @@
 //!   "distinct values … without repetition" demands); in addition `tsort` must keep the multiset of bit patterns.
 //!   Lanes containing NaN are outside the statement for sort / unique / argsort (no linear order): reported as open region
 //!   after a weak oracle (sort keeps the multiset of bit patterns; unique keeps the set of non-NaN values).
+//! Part 2 (after the third round of seeded changes):
+//!  * typed case lines may end in `ref` and may spell the array as a generator `G<pattern>.<seed>.<hi>:<shape>` (values 0..=hi from the
+//!    harness RNG; hi <= 100 unless the element type is i64 / f64): cases beyond the reach of the quadratic list-backed model (16 384 … 140 000 elements; axis sweeps).  The driver
+//!    answers `ref`; the harness judges the real result by its NATIVE REFERENCE `native_answer` (lane membership by coordinate
+//!    arithmetic + std's stable sort / stable ranking / first extreme, first NaN wins).  That reference is compared with the MODEL's
+//!    answer on every sort / argsort / argmax / argmin case the model answers (non-empty, NaN-free for the sorts) — the closing
+//!    `refstats` line reports how many — so the chain is model -> reference -> crate.
+//!  * hidden state: colliding shapes back to back in both orders, permuted / reversed / one-off value sets, failing calls directly
+//!    followed by valid ones, the same lane through every element type back to back, and A-B-A re-runs in `exec`.
+//!  * strictly descending runs closed by one larger element (whole lane and every aligned run of the run-merging sort); every lane
+//!    length 1..300 in trailing / inner position; ranks 6..8.
 use arrharness::*;
+use std::cell::{Cell, RefCell};
 use std::panic::{catch_unwind, AssertUnwindSafe};
 
 // ---------------------------------------------------------------- lanes
@@ -268,6 +280,7 @@ fn gen(tier: &str, seed: u64, out: &mut dyn FnMut(String)) {
     }
 
     gen_robust(thorough, &mut rng, out, &enum_kinds, &all_spellings);
+    gen_part2(thorough, &mut rng, out, &enum_kinds, &all_spellings);
 }
 
 // ---------------------------------------------------------------- robustness streams (typed ops)
@@ -500,6 +513,228 @@ fn gen_robust(thorough: bool, rng: &mut Rng, out: &mut dyn FnMut(String), enum_k
     }
 }
 
+// ---------------------------------------------------------------- part 2: hidden state, exact lengths, high ranks, huge sizes
+
+/// groups of same-rank shapes that collide under a key a per-shape cache could plausibly use
+fn c10_collision_groups() -> Vec<Vec<Vec<usize>>> {
+    let mut g: Vec<Vec<Vec<usize>>> = vec![];
+    // equal rank, equal ELEMENT COUNT, equal polynomial hash `h = h*m + d`: [c+k, c*m] and [c, (c+k)*m]
+    for &m in &[31usize, 33, 37, 131, 257, 256] {
+        for (c, k) in [(1usize, 1usize), (2, 1), (1, 2)] {
+            let (a, b) = (vec![c + k, c * m], vec![c, (c + k) * m]);
+            g.push(vec![a.clone(), b.clone()]);
+            if m <= 37 && k == 1 { g.push(vec![[vec![3], a.clone()].concat(), [vec![3], b.clone()].concat()]); g.push(vec![[a.clone(), vec![2]].concat(), [b.clone(), vec![2]].concat()]); }
+        }
+    }
+    for (a, b) in collision_shape_pairs() { g.push(vec![a, b]); }
+    // order-blind keys (element count + rank, sum / product / xor / sorted axis lengths); packed keys (axis lengths modulo 2^8)
+    g.push(vec![vec![2, 3, 4], vec![4, 3, 2], vec![3, 4, 2], vec![2, 4, 3], vec![2, 2, 6]]);
+    g.push(vec![vec![2, 6], vec![6, 2], vec![3, 4], vec![4, 3], vec![1, 12], vec![12, 1]]);
+    g.push(vec![vec![16, 17], vec![17, 16], vec![8, 34]]);
+    g.push(vec![vec![2, 3], vec![2, 259], vec![258, 3]]);
+    g.push(vec![vec![3, 2, 4], vec![3, 258, 4], vec![3, 2, 260]]);
+    g
+}
+
+/// one descending-run lane: every aligned run of the run-merging sort (`calc_min_run(n)` elements, the whole lane below 32) is
+/// strictly descending except for its LAST element, which is not smaller than its predecessor (`bump` 0: equal, 1: larger, 2: the largest)
+fn descending_runs(n: usize, bump: usize) -> Vec<i64> {
+    let run = if n < 32 { n.max(1) } else { min_run(n) };
+    let mut v = vec![0i64; n];
+    let mut start = 0;
+    while start < n {
+        let end = (start + run).min(n);
+        let len = end - start;
+        for j in 0..len { v[start + j] = (1000 + len - j) as i64; }
+        if len >= 2 { v[end - 1] = match bump { 0 => v[end - 2], 1 => v[end - 2] + 1, _ => 5000 + start as i64 }; }
+        start = end;
+    }
+    v
+}
+
+fn gen_part2(thorough: bool, rng: &mut Rng, out: &mut dyn FnMut(String), enum_kinds: &[String], all_spellings: &[String]) {
+    let keeps = ["none", "true", "false"];
+    let mut k = 0usize;
+    // every query on one typed lane; `model`: tied to the model, otherwise a `ref` case (no unique there: no native reference)
+    let emit_all = |out: &mut dyn FnMut(String), k: usize, ty: &str, a: &str, ax: &str, model: bool| {
+        let sfx = if model { "" } else { " ref" };
+        out(format!("tsort {ty}:b {a} {ax} {}{sfx}", enum_kinds[k % 4]));
+        out(format!("tsort {ty}:b {a} {ax} {}{sfx}", enum_kinds[(k + 1) % 4]));
+        out(format!("targsort {ty}:b {a} {ax} {}{sfx}", enum_kinds[(k + 2) % 4]));
+        out(format!("targmax {ty}:b {a} {ax} {}{sfx}", keeps[k % 3]));
+        out(format!("targmin {ty}:b {a} {ax} {}{sfx}", keeps[(k + 1) % 3]));
+        if model { out(format!("tunique {ty}:b {a} {ax}")); }
+    };
+    // ---- (6a) hidden state: colliding shapes back to back, both orders, same axis, every query.  Members above 250 elements are
+    //      `ref` cases in the quick tier (the model needs ~n^2 for an axis), all members are tied to the model in the thorough tier
+    for (gi, g) in c10_collision_groups().into_iter().enumerate() {
+        let nd = g[0].len() as isize;
+        let arrs: Vec<(String, bool)> = g.iter().map(|s| {
+            let n: usize = s.iter().product();
+            let small = n <= if thorough { 1600 } else { 250 };
+            let spec = format!("G{}.{}.{}:{}", gi % 2, rng.next() % 100000, [3, 100, 1, 9][gi % 4], show_list(s));
+            if small { let v = gen_values(spec.split(':').next().unwrap(), n).unwrap(); (lane_ty(TYS[gi % 5], s, &v, 1), true) } else { (spec, false) }
+        }).collect();
+        let ty = TYS[gi % 5];
+        for a in 0..nd {
+            k += 1;
+            if g.iter().any(|s| s.iter().product::<usize>() > 600) && a != gi as isize % nd { continue; }
+            let ax = (if k % 2 == 0 { a } else { a - nd }).to_string();
+            let mut seq: Vec<usize> = (0..g.len()).collect();
+            seq.push(0); seq.extend((1..g.len()).rev()); seq.push(0); seq.push(1);
+            let ops: [(&str, String); 5] = [("tsort", enum_kinds[k % 4].clone()), ("targsort", enum_kinds[(k + 1) % 4].clone()), ("targmax", keeps[k % 3].to_string()), ("targmin", keeps[(k + 2) % 3].to_string()), ("tunique", String::new())];
+            for (op, arg) in &ops {
+                for &m in &seq {
+                    let (a_txt, model) = &arrs[m];
+                    if *op == "tunique" { if *model { out(format!("tunique {ty}:b {a_txt} {ax}")); } continue; }
+                    out(format!("{op} {ty}:b {a_txt} {ax} {arg}{}", if *model { "" } else { " ref" }));
+                }
+            }
+        }
+    }
+    // ---- (6b) hidden state keyed by the VALUES: a lane, the same values reversed / rotated / permuted (same multiset, sum, xor), and the
+    //      lane with one element moved by one, each between two runs of the original
+    for (i, n) in [5usize, 8, 9, 16, 21, 33, 40, 64, 100].iter().enumerate() {
+        for c in 0..(if thorough { 4 } else { 2 }) {
+            let v: Vec<i64> = (0..*n).map(|_| rng.range(0, if c % 2 == 0 { 3 } else { 100 })).collect();
+            let rev: Vec<i64> = v.iter().rev().copied().collect();
+            let rot: Vec<i64> = (0..*n).map(|j| v[(j + 1) % n]).collect();
+            let perm: Vec<i64> = rng.perm(*n).into_iter().map(|j| v[j]).collect();
+            let mut off = v.clone(); off[n / 2] = (off[n / 2] + 1).min(100);
+            let ty = TYS[(i + c) % 5];
+            for (shape, ax) in [(vec![*n], "none"), (vec![*n], "0")] {
+                for (oi, op) in ["tsort", "targsort", "targmax", "targmin", "tunique"].iter().enumerate() {
+                    let arg = match oi { 0 | 1 => format!(" {}", enum_kinds[(i + c + oi) % 4]), 2 | 3 => format!(" {}", keeps[(i + c) % 3]), _ => String::new() };
+                    for w in [&v, &rev, &v, &rot, &v, &perm, &v, &off, &v] { out(format!("{op} {ty}:b {} {ax}{arg}", lane_ty(ty, &shape, w, 1))); }
+                }
+            }
+        }
+    }
+    // ---- (6c) a failing call (axis outside the rank / unknown selector) directly followed by the valid call on the same array
+    for (si, s) in [vec![7usize], vec![2, 3], vec![3, 4, 2], vec![2, 31], vec![1, 62]].iter().enumerate() {
+        let n: usize = s.iter().product();
+        let v: Vec<i64> = (0..n).map(|_| rng.range(0, 5)).collect();
+        let nd = s.len() as isize;
+        let ty = TYS[si % 5];
+        let a = lane_ty(ty, s, &v, 1);
+        for (j, bad) in [nd, -nd - 1, nd + 3].iter().enumerate() {
+            let good = if j % 2 == 0 { nd - 1 } else { -nd };
+            for kd in enum_kinds { out(format!("tsort {ty}:b {a} {bad} {kd}")); out(format!("tsort {ty}:b {a} {good} {kd}")); }
+            out(format!("targsort {ty}:b {a} {bad} {}", enum_kinds[j])); out(format!("targsort {ty}:b {a} {good} {}", enum_kinds[j]));
+            for kd in keeps { out(format!("targmax {ty}:b {a} {bad} {kd}")); out(format!("targmax {ty}:b {a} {good} {kd}")); out(format!("targmin {ty}:b {a} {bad} {kd}")); out(format!("targmin {ty}:b {a} {good} {kd}")); }
+            out(format!("tunique {ty}:b {a} {bad}")); out(format!("tunique {ty}:b {a} {good}"));
+        }
+        for bad in ["", "quick", "stable ", "ſtable", "quıcksort"] {
+            for sp in ["s", "o"] {
+                let good = &all_spellings[1 + (si * 3 + bad.len()) % (all_spellings.len() - 1)];
+                out(format!("tsort {ty}:b {a} none {sp}:{}", hex(bad))); out(format!("tsort {ty}:b {a} none {good}"));
+                out(format!("targsort {ty}:b {a} -1 {sp}:{}", hex(bad))); out(format!("targsort {ty}:b {a} -1 {good}"));
+            }
+        }
+    }
+    // ---- (6d) the same lane through every element type back to back (a static shared by all instantiations)
+    for (i, n) in [3usize, 6, 9, 17, 33, 65].iter().enumerate() {
+        let v: Vec<i64> = (0..*n).map(|_| rng.range(0, if i % 2 == 0 { 2 } else { 100 })).collect();
+        for (shape, ax) in [(vec![*n], "none".to_string()), (vec![*n], "-1".to_string()), (if n % 3 == 0 { vec![3, n / 3] } else { vec![1, *n] }, "1".to_string())] {
+            for round in 0..2 { for ty in TYS { let _ = round; k += 1;
+                let a = lane_ty(ty, &shape, &v, 1);
+                out(format!("tsort {ty}:b {a} {ax} {}", enum_kinds[i % 4])); } }
+            for ty in TYS { out(format!("targsort {ty}:b {} {ax} {}", lane_ty(ty, &shape, &v, 1), enum_kinds[(i + 1) % 4])); }
+            for ty in TYS { out(format!("targmax {ty}:b {} {ax} {}", lane_ty(ty, &shape, &v, 1), keeps[i % 3])); }
+            for ty in TYS { out(format!("tunique {ty}:b {} {ax}", lane_ty(ty, &shape, &v, 1))); }
+        }
+    }
+    // ---- (8a) exact values: strictly descending runs closed by one element that is not smaller (whole lane below 32 elements, every
+    //      aligned run of the run-merging sort above), every length 2..=130 (thorough ..=300) and the lengths around the run sizes
+    let mut lens: Vec<usize> = (2..=(if thorough { 300 } else { 130 })).collect();
+    lens.extend([255usize, 256, 257, 511, 512, 513, 528, 1000, 1001]);
+    for &n in &lens {
+        for bump in 0..3 {
+            let v = descending_runs(n, bump);
+            let a = arr1(&v);
+            out(format!("sort {a} none e:Stable"));
+            out(format!("argsort {a} none e:Stable"));
+            if bump == 1 || n <= 40 { for kd in &enum_kinds[..3] { out(format!("sort {a} none {kd}")); } out(format!("sort {a} 0 s:{}", hex("STABLE"))); out(format!("argmax {a} none none")); out(format!("argmin {a} 0 true")); }
+        }
+        // ... and as lanes of a 2-D array (axis 1: the lanes are the rows; axis 0 after transposition by hand)
+        if n <= 64 {
+            let (r0, r1) = (descending_runs(n, 1), descending_runs(n, 2));
+            let rows: Vec<i64> = r0.iter().chain(r1.iter()).copied().collect();
+            let cols: Vec<i64> = (0..n).flat_map(|j| [r0[j], r1[j]]).collect();
+            out(format!("sort {} 1 e:Stable", arr_shaped(&[2, n], &rows))); out(format!("sort {} 0 e:Stable", arr_shaped(&[n, 2], &cols)));
+            out(format!("argsort {} -1 e:Stable", arr_shaped(&[2, n], &rows)));
+        }
+    }
+    // ---- (8b) exact lengths: EVERY lane length 1..300 in the trailing position ([2,d], both axes) and in an inner position ([3,d,2]).
+    //      The model answers the lengths up to 48 and a selection above (it needs ~d^2 per axis call), the native reference all of them.
+    let model_len = |d: usize| d <= 48 || [49, 50, 64, 97, 100, 128, 129, 200, 256, 257, 300].contains(&d) || (thorough && d % 3 == 0);
+    for d in 1..=300usize {
+        k += 1;
+        let ty = TYS[d % 5];
+        let two = format!("G{}.{}.{}:2,{d}", d % 3, rng.next() % 100000, [2, 100, 7][d % 3]);
+        let three = format!("G{}.{}.{}:3,{d},2", (d + 1) % 3, rng.next() % 100000, [100, 3, 9][d % 3]);
+        for (spec, shape, axes) in [(&two, vec![2, d], vec!["1", "0", "-1"]), (&three, vec![3, d, 2], vec!["1", "-2"])] {
+            for (ai, ax) in axes.iter().enumerate() {
+                if ai == 2 && d % 4 != 0 { continue; }
+                if shape.len() == 3 && ai == 1 && d % 2 != 0 { continue; }
+                emit_all(out, k + ai, ty, spec, ax, false);
+                if model_len(d) && (ai == 0 || d <= 48) {
+                    let v = gen_values(spec.split(':').next().unwrap(), shape.iter().product()).unwrap();
+                    emit_all(out, k + ai, ty, &lane_ty(ty, &shape, &v, 1), ax, true);
+                }
+            }
+        }
+    }
+    // ---- (10) ranks 6..8: every axis in both spellings, every query
+    let mut high = vec![vec![2usize; 6], vec![2; 7], vec![2; 8], vec![1, 2, 1, 2, 1, 2, 1, 2], vec![2, 1, 1, 3, 1, 1, 2], vec![3, 2, 1, 2, 2, 3]];
+    if thorough { high.extend([vec![3, 1, 2, 1, 2, 1, 1, 2], vec![2, 3, 2, 1, 2, 3, 2]]); }
+    for (si, s) in high.iter().enumerate() {
+        let n: usize = s.iter().product();
+        let nd = s.len() as isize;
+        let ty = TYS[si % 5];
+        let v: Vec<i64> = (0..n).map(|_| rng.range(0, if si % 2 == 0 { 2 } else { 100 })).collect();
+        let a = lane_ty(ty, s, &v, 1);
+        for ax in 0..nd { for sp in [ax, ax - nd] { if !thorough && n > 100 && (ax + (sp < 0) as isize) % 2 == 0 { continue; } k += 1; emit_all(out, k, ty, &a, &sp.to_string(), true); } }
+        emit_all(out, k, ty, &a, "none", true);
+        for bad in [nd, -nd - 1] { out(format!("tsort {ty}:b {a} {bad} e:Stable")); out(format!("targmax {ty}:b {a} {bad} true")); out(format!("tunique {ty}:b {a} {bad}")); }
+    }
+    // ---- (7) huge sizes (`ref` cases, generator spelling): 12 600 .. 140 000 elements.  Rank 3 / 4 with the LAST axis (contiguous
+    //      lanes) and every other axis (strided lanes); rank 2; one axis above 65 536; flat forms.  Lanes beyond 5000 elements are
+    //      spelled with distinct-ish values (pattern 1 / 2 with hi = 100 would give many repeats: the crate's quicksort is quadratic
+    //      on repeats), so long lanes use sort kinds merge / heap / stable and argmax / argmin only up to 5000-element lanes.
+    let mut huge: Vec<(Vec<usize>, Vec<&str>)> = vec![
+        (vec![16, 32, 40], vec!["2", "-1", "1", "0"]), (vec![4, 8, 16, 40], vec!["3", "-1", "1", "-4"]), (vec![3, 60, 70], vec!["1", "-2", "0", "2"]),
+        (vec![26, 26, 26], vec!["-1", "1", "0"]), (vec![2, 3, 5, 7, 11, 13], vec!["5", "-1", "2", "0"]),
+        (vec![130, 130], vec!["0", "1"]), (vec![129, 131], vec!["-1", "-2"]), (vec![100, 200], vec!["1"]), (vec![2, 8200], vec!["1", "0"]), (vec![8200, 2], vec!["0", "-1"]),
+        (vec![16385], vec!["0"]), (vec![33000], vec!["none"]), (vec![2, 70000], vec!["1"]), (vec![70000, 2], vec!["0"]), (vec![40, 30, 30], vec!["2", "0"]),
+        (vec![10, 11, 12, 13], vec!["3", "1"]), (vec![5, 4, 10, 10, 10], vec!["4", "2", "0"]), (vec![300, 300], vec!["1", "0"])];
+    if thorough { huge.extend([(vec![70000], vec!["0", "none"]), (vec![140001], vec!["-1"]), (vec![7, 131, 151], vec!["2", "1", "0"]), (vec![1, 66000, 2, 1], vec!["1"]), (vec![3, 5, 7, 11, 13, 2], vec!["4", "-1", "0"]), (vec![100, 200], vec!["0"])]); }
+    for (hi, (s, axes)) in huge.iter().enumerate() {
+        let n: usize = s.iter().product();
+        for (ai, ax) in axes.iter().enumerate() {
+            k += 1;
+            let lane = match ax.parse::<isize>() { Ok(a) => s[(if a < 0 { a + s.len() as isize } else { a }) as usize], Err(_) => n };
+            let ty = if lane > 5000 { ["i64", "f64"][k % 2] } else { TYS[(hi + ai) % 5] };
+            let reps = if thorough { 2 } else { 1 };
+            for r in 0..reps {
+                let (p, top) = if lane > 5000 { (1, 1000000) } else { ([0usize, 1, 4, 2][(k + r) % 4], [100, 3, 100, 50][(k + r) % 4]) };
+                let a = format!("G{p}.{}.{top}:{}", rng.next() % 100000, show_list(s));
+                if lane > 5000 {
+                    for kd in ["e:Mergesort", "e:Heapsort", "e:Stable"] { if thorough || kd != "e:Heapsort" { out(format!("tsort {ty}:b {a} {ax} {kd} ref")); } }
+                } else {
+                    for kd in enum_kinds { out(format!("tsort {ty}:b {a} {ax} {kd} ref")); }
+                    out(format!("tsort {ty}:r {a} {ax} s:{} ref", hex(["STABLE", "MergeSort", "quicksort", "Heapsort"][k % 4])));
+                    // (the crate's argsort is cubic in the lane length)
+                    if lane <= 600 { out(format!("targsort {ty}:b {a} {ax} {} ref", enum_kinds[k % 4])); }
+                    for kd in keeps { out(format!("targmax {ty}:b {a} {ax} {kd} ref")); out(format!("targmin {ty}:b {a} {ax} {kd} ref")); }
+                }
+            }
+        }
+    }
+    // the last line of a run: how many times the native reference was compared with the model / used in its place
+    out("refstats".to_string());
+}
+
 // ---------------------------------------------------------------- executor
 
 enum Kind { None, Enum(SortKind), Str(String), Owned(String) }
@@ -533,7 +768,7 @@ fn checked<T: ArrayElement + std::fmt::Display>(r: Result<Array<T>, ArrayError>)
 /// strictly increasing in Rust's `String` order (byte-wise UTF-8): key k < 14 is `STR_TABLE[k]`, larger keys follow
 const STR_TABLE: [&str; 14] = ["", " ", "0", "10", "9", "A", "B", "a", "a ", "aa", "ab", "b", "é", "日本"];
 
-trait Lane: ArrayElement + std::fmt::Display {
+trait Lane: ArrayElement + std::fmt::Display + PartialOrd {
     fn from_tok(t: &str) -> Option<Self>;
     /// value-level protocol token (0.0 and -0.0 are the same value)
     fn tok(&self) -> String;
@@ -563,7 +798,30 @@ impl Lane for f64 {
     }
     fn raw(&self) -> String { format!("{:016x}", self.to_bits()) }
 }
+/// the values of a generator spelling `G<pattern>.<seed>.<hi>` for `n` elements, all in 0..=hi (hi <= 100: valid for every element type)
+fn gen_values(spec: &str, n: usize) -> Option<Vec<i64>> {
+    let mut it = spec.strip_prefix('G')?.split('.');
+    let (p, seed, hi): (usize, u64, i64) = (it.next()?.parse().ok()?, it.next()?.parse().ok()?, it.next()?.parse().ok()?);
+    let mut r = Rng::new(seed ^ 0xC10);
+    let m = hi + 1;
+    Some(match p {
+        0 => (0..n).map(|_| r.range(0, hi)).collect(),                                   // random, many repeats
+        1 => r.perm(n).into_iter().map(|j| j as i64 % m).collect(),                      // scramble
+        2 => (0..n as i64).map(|i| (i * 7919) % m).collect(),                            // saw
+        3 => (0..n as i64).map(|i| (n as i64 - 1 - i) * m / (n as i64).max(1)).collect(),  // descending with runs of repeats
+        _ => (0..n).map(|i| if i % 97 == 5 { hi } else if i % 89 == 7 { 0 } else { 1 + r.range(0, (hi - 2).max(0)) }).collect(),  // repeated extremes
+    })
+}
 fn parse_lane<T: Lane>(s: &str) -> Option<Array<T>> {
+    if s.starts_with('G') {
+        let (spec, sh) = s.split_once(':')?;
+        let shape = parse_usize_list(sh);
+        let v = gen_values(spec, shape.iter().product())?;
+        // float lanes: every other zero is -0.0 (as in `lane_ty`)
+        let toks = f64_tokens(&v, 1);
+        let elems: Vec<T> = toks.iter().map(|t| T::from_tok(if t == "z" && T::from_tok("z").is_none() { "0" } else { t })).collect::<Option<Vec<T>>>()?;
+        return Array::new(elems, shape).ok();
+    }
     let (sh, el) = s.split_once(':')?;
     let shape = parse_usize_list(sh);
     let elems: Vec<T> = if el == "-" { vec![] } else { el.split(',').map(T::from_tok).collect::<Option<Vec<T>>>()? };
@@ -602,7 +860,89 @@ macro_rules! with_kind {
 }
 enum TArg { Kind(Kind), Keep(Option<bool>), Nothing }
 
-fn typed<T: Lane>(op: &str, rc: &str, args: &[&str], expected: &str) -> Option<Verdict> {
+thread_local! {
+    /// how often the native reference was compared with the model's answer in this run / used in place of the model
+    static REF_VALIDATED: Cell<usize> = Cell::new(0);
+    static REF_USED: Cell<usize> = Cell::new(0);
+    static REF_BROKEN: Cell<usize> = Cell::new(0);
+    /// A-B-A: the previous case (op, arguments, bit-level answer of its first call)
+    static PREV: RefCell<Option<(String, Vec<String>, String)>> = RefCell::new(None);
+    static LAST_RAW: RefCell<Option<String>> = RefCell::new(None);
+    static ABA_RUNS: Cell<usize> = Cell::new(0);
+}
+fn bump(c: &'static std::thread::LocalKey<Cell<usize>>) { c.with(|x| x.set(x.get() + 1)); }
+
+fn kind_ok(k: &Kind) -> bool {
+    match k { Kind::None | Kind::Enum(_) => true, Kind::Str(s) | Kind::Owned(s) => matches!(s.to_lowercase().as_str(), "quicksort" | "mergesort" | "heapsort" | "stable") }
+}
+
+/// NATIVE REFERENCE for sort / argsort / argmax / argmin: plain Rust, nothing of the crate.  Lane membership by coordinate
+/// arithmetic (lane (o, i) of axis k = positions o*len*inner + j*inner + i); per lane the standard library's STABLE sort (the sorted
+/// values; for argsort the rank of every element, equal elements ranked in order of appearance) or the FIRST position of the largest / smallest
+/// element, the first NaN winning.  Value-level answer text in the model's spelling.  `None`: no opinion (zero-size arrays, lanes
+/// with NaN for the sorts, `unique`).
+fn native_answer<T: Lane>(op: &str, shape: &[usize], el: &[T], axis: Option<isize>, arg: &TArg) -> Option<String> {
+    let n = el.len();
+    let nd = shape.len();
+    if n == 0 || nd == 0 { return None; }
+    let sorting = matches!(op, "tsort" | "targsort");
+    if !sorting && !matches!(op, "targmax" | "targmin") { return None; }
+    if sorting && el.iter().any(ArrayElement::is_nan) { return None; }
+    if let TArg::Kind(k) = arg { if !kind_ok(k) { return Some("err ParameterError".into()); } }
+    // (outer, len, inner) of the lanes
+    let (outer, len, inner, k) = match axis {
+        None => (1, n, 1, usize::MAX),
+        Some(a) => { let k = if a < 0 { a + nd as isize } else { a }; if k < 0 || k >= nd as isize { return Some("err AxisOutOfBounds".into()); } let k = k as usize;
+            (shape[..k].iter().product::<usize>(), shape[k], shape[k + 1..].iter().product::<usize>(), k) }
+    };
+    let lane_idx = |o: usize, i: usize| -> Vec<usize> { (0..len).map(|j| o * len * inner + j * inner + i).collect() };
+    let cmp = |a: &T, b: &T| a.partial_cmp(b).unwrap_or(std::cmp::Ordering::Equal);
+    if sorting {
+        let mut toks = vec![String::new(); n];
+        for o in 0..outer { for i in 0..inner {
+            let idx = lane_idx(o, i);
+            let mut order: Vec<usize> = (0..len).collect();
+            order.sort_by(|&x, &y| cmp(&el[idx[x]], &el[idx[y]]));                      // stable
+            // sort: position j of the lane receives the j-th smallest; argsort: every element receives its RANK (its position in the
+            // sorted lane, equal elements ranked in order of appearance)
+            for (j, &src) in order.iter().enumerate() { if op == "tsort" { toks[idx[j]] = el[idx[src]].tok(); } else { toks[idx[src]] = j.to_string(); } }
+        } }
+        let sh: Vec<usize> = if axis.is_none() { vec![n] } else { shape.to_vec() };
+        return Some(format!("ok {}:{}", show_list(&sh), show_list(&toks)));
+    }
+    let keep = if let TArg::Keep(kd) = arg { *kd } else { None };
+    let is_max = op == "targmax";
+    let mut res: Vec<usize> = Vec::with_capacity(outer * inner);
+    for o in 0..outer { for i in 0..inner {
+        let idx = lane_idx(o, i);
+        let pos = match idx.iter().position(|&t| el[t].is_nan()) {
+            Some(p) => p,
+            None => { let mut b = 0; for j in 1..len { let c = el[idx[j]].partial_cmp(&el[idx[b]]); if (is_max && c == Some(std::cmp::Ordering::Greater)) || (!is_max && c == Some(std::cmp::Ordering::Less)) { b = j; } } b }
+        };
+        res.push(pos);
+    } }
+    let sh: Vec<usize> = match axis {
+        None => if keep == Some(true) { if nd > 3 { return Some("err UnsupportedDimension".into()); } vec![1; nd] } else { vec![1] },
+        Some(_) => { let mut sh = shape.to_vec(); if keep == Some(true) { sh[k] = 1; } else { sh.remove(k); } sh }
+    };
+    Some(format!("ok {}:{}", show_list(&sh), show_list(&res)))
+}
+
+fn typed_call<T: Lane>(op: &str, a: &Array<T>, axis: Option<isize>, arg: &TArg, chained: bool) -> Run {
+    let r = catch_unwind(AssertUnwindSafe(|| {
+        let res: Result<Array<T>, ArrayError> = Ok(a.clone());
+        match (op, arg) {
+            ("tsort", TArg::Kind(k)) => run_t(if chained { with_kind!(res, sort, axis, k) } else { with_kind!(a, sort, axis, k) }),
+            ("targsort", TArg::Kind(k)) => run_u(if chained { with_kind!(res, argsort, axis, k) } else { with_kind!(a, argsort, axis, k) }),
+            ("tunique", _) => run_t(if chained { res.unique(axis) } else { a.unique(axis) }),
+            ("targmax", TArg::Keep(kd)) => run_u(if chained { res.argmax(axis, *kd) } else { a.argmax(axis, *kd) }),
+            ("targmin", TArg::Keep(kd)) => run_u(if chained { res.argmin(axis, *kd) } else { a.argmin(axis, *kd) }),
+            _ => unreachable!(),
+        }
+    }));
+    r.unwrap_or_else(|_| Run { value: "panic".into(), raw: "panic".into(), raws: vec![], toks: vec![] })
+}
+fn typed_args<T: Lane>(op: &str, args: &[&str]) -> Option<(Array<T>, Option<isize>, TArg)> {
     let a: Array<T> = parse_lane::<T>(args.first()?)?;
     let axis = parse_axis(args.get(1)?)?;
     let arg = match op {
@@ -611,20 +951,16 @@ fn typed<T: Lane>(op: &str, rc: &str, args: &[&str], expected: &str) -> Option<V
         "tunique" => TArg::Nothing,
         _ => return None,
     };
-    let call = |chained: bool| -> Run {
-        let r = catch_unwind(AssertUnwindSafe(|| {
-            let res: Result<Array<T>, ArrayError> = Ok(a.clone());
-            match (op, &arg) {
-                ("tsort", TArg::Kind(k)) => run_t(if chained { with_kind!(res, sort, axis, k) } else { with_kind!(a, sort, axis, k) }),
-                ("targsort", TArg::Kind(k)) => run_u(if chained { with_kind!(res, argsort, axis, k) } else { with_kind!(a, argsort, axis, k) }),
-                ("tunique", _) => run_t(if chained { res.unique(axis) } else { a.unique(axis) }),
-                ("targmax", TArg::Keep(kd)) => run_u(if chained { res.argmax(axis, *kd) } else { a.argmax(axis, *kd) }),
-                ("targmin", TArg::Keep(kd)) => run_u(if chained { res.argmin(axis, *kd) } else { a.argmin(axis, *kd) }),
-                _ => unreachable!(),
-            }
-        }));
-        r.unwrap_or_else(|_| Run { value: "panic".into(), raw: "panic".into(), raws: vec![], toks: vec![] })
-    };
+    Some((a, axis, arg))
+}
+
+/// `probe`: only the first call (A-B-A re-run), its bit-level answer as `Open`
+fn typed<T: Lane>(op: &str, rc: &str, args: &[&str], expected: &str, probe: bool) -> Option<Verdict> {
+    let (a, axis, arg) = typed_args::<T>(op, args)?;
+    let by_ref = args.len() == 4 && args[3] == "ref";
+    if args.len() > 4 || (args.len() == 4 && !by_ref) || (by_ref && expected != "ref" && !probe) { return None; }
+    let call = |chained: bool| -> Run { typed_call(op, &a, axis, &arg, chained) };
+    if probe { return Some(Verdict::Open(call(rc == "r").raw)); }
     let mut runs: Vec<(&str, Run)> = vec![];
     if rc != "r" { runs.push(("the plain receiver", call(false))); if a.len().unwrap_or(0) <= 300 { runs.push(("the same call a second time", call(false))); } }
     if rc != "p" { runs.push(("the chained call on Ok(array)", call(true))); }
@@ -635,14 +971,32 @@ fn typed<T: Lane>(op: &str, rc: &str, args: &[&str], expected: &str) -> Option<V
                 detail: format!("all receivers / repeated calls must agree bit-wise; model says `{}`", truncate(expected, 300)) });
         }
     }
+    LAST_RAW.with(|l| *l.borrow_mut() = Some(first.raw.clone()));
     let input = a.get_elements().unwrap();
     let has_nan = input.iter().any(ArrayElement::is_nan);
     let mut sorted_in: Vec<String> = input.iter().map(Lane::raw).collect(); sorted_in.sort();
     if op == "tsort" && first.value.starts_with("ok") {
         // "each kept with its multiplicity": the multiset of bit patterns is preserved (0.0 and -0.0 are not traded for one another)
         let mut so = first.raws.clone(); so.sort();
-        if so != sorted_in { return Some(Verdict::Mismatch { observed: first.raw.clone(), detail: format!("sort does not keep the multiset of element representations (value-level answer `{}`)", truncate(&first.value, 300)) }); }
+        if so != sorted_in { return Some(Verdict::Mismatch { observed: truncate(&first.raw, 2000), detail: format!("sort does not keep the multiset of element representations (value-level answer `{}`)", truncate(&first.value, 300)) }); }
     }
+    // the native reference: compared with the model where the model answers, used in its place on `ref` cases
+    let native = native_answer(op, &a.get_shape().unwrap(), &input, axis, &arg);
+    let expected_owned: String;
+    let expected: &str = if by_ref {
+        bump(&REF_USED);
+        expected_owned = native?;
+        &expected_owned
+    } else {
+        if let Some(nat) = &native {
+            bump(&REF_VALIDATED);
+            if !(nat == expected || (class_of(nat) == "err" && class_of(expected) == "err")) {
+                bump(&REF_BROKEN);
+                return Some(Verdict::Mismatch { observed: "n/a".into(), detail: format!("HARNESS: the native reference says `{}`, the model `{}`", truncate(nat, 300), truncate(expected, 300)) });
+            }
+        }
+        expected
+    };
     if has_nan && op != "targmax" && op != "targmin" {
         // no linear order: outside the statement.  Weak oracle, then open region.
         if first.value == "panic" || first.value.starts_with("inconsistent") { return Some(Verdict::Mismatch { observed: first.value, detail: "lane with NaN: the call must still return".into() }); }
@@ -653,23 +1007,29 @@ fn typed<T: Lane>(op: &str, rc: &str, args: &[&str], expected: &str) -> Option<V
         }
         return Some(Verdict::Open(first.value));
     }
-    Some(compare_default(first.value, expected))
+    Some(match compare_default(first.value, expected) {
+        Verdict::Match(t) => Verdict::Match(truncate(&t, 3000)),
+        Verdict::Mismatch { observed, detail } => Verdict::Mismatch { observed: truncate(&observed, 3000), detail: if by_ref { format!("native reference (lane membership + std stable sort / first extreme; validated against the model on the other cases of this run) says `{}`", truncate(expected, 400)) } else { detail } },
+        v => v,
+    })
 }
 
-fn exec(op: &str, args: &[&str], expected: &str) -> Option<Verdict> {
-    if matches!(op, "tsort" | "targsort" | "tunique" | "targmax" | "targmin") {
-        let (ty, rc) = args.first()?.split_once(':')?;
-        if !matches!(rc, "p" | "r" | "b") { return None; }
-        return match ty {
-            "i64" => typed::<i64>(op, rc, &args[1..], expected),
-            "u8" => typed::<u8>(op, rc, &args[1..], expected),
-            "i8" => typed::<i8>(op, rc, &args[1..], expected),
-            "str" => typed::<String>(op, rc, &args[1..], expected),
-            "f64" => typed::<f64>(op, rc, &args[1..], expected),
-            _ => None,
-        };
+fn typed_dispatch(op: &str, args: &[&str], expected: &str, probe: bool) -> Option<Verdict> {
+    let (ty, rc) = args.first()?.split_once(':')?;
+    if !matches!(rc, "p" | "r" | "b") { return None; }
+    match ty {
+        "i64" => typed::<i64>(op, rc, &args[1..], expected, probe),
+        "u8" => typed::<u8>(op, rc, &args[1..], expected, probe),
+        "i8" => typed::<i8>(op, rc, &args[1..], expected, probe),
+        "str" => typed::<String>(op, rc, &args[1..], expected, probe),
+        "f64" => typed::<f64>(op, rc, &args[1..], expected, probe),
+        _ => None,
     }
-    let observed = match op {
+}
+
+/// the real call of an untyped case line
+fn base_observe(op: &str, args: &[&str]) -> Option<String> {
+    Some(match op {
         "sort" | "argsort" => {
             let a = parse_arr_i64(args.first()?);
             let axis = parse_axis(args.get(1)?)?;
@@ -702,8 +1062,60 @@ fn exec(op: &str, args: &[&str], expected: &str) -> Option<Verdict> {
             guarded(move || checked(a.unique(axis)))
         }
         _ => return None,
+    })
+}
+/// the native reference on an untyped (i64) case line
+fn base_native(op: &str, args: &[&str]) -> Option<String> {
+    let top = match op { "sort" => "tsort", "argsort" => "targsort", "argmax" => "targmax", "argmin" => "targmin", _ => return None };
+    let (shape, el) = parse_arr_raw(args.first()?);
+    if el.len() != shape.iter().product::<usize>() { return None; }
+    let axis = parse_axis(args.get(1)?)?;
+    let arg = if top.ends_with("sort") { TArg::Kind(parse_kind_arg(args.get(2)?)?) } else { TArg::Keep(parse_keep(args.get(2)?)?) };
+    native_answer::<i64>(top, &shape, &el, axis, &arg)
+}
+
+fn is_typed(op: &str) -> bool { matches!(op, "tsort" | "targsort" | "tunique" | "targmax" | "targmin") }
+/// first call of a case, bit-level (A-B-A re-run)
+fn probe_case(op: &str, args: &[&str]) -> Option<String> {
+    if is_typed(op) { match typed_dispatch(op, args, "", true)? { Verdict::Open(t) => Some(t), _ => None } } else { base_observe(op, args) }
+}
+
+fn exec(op: &str, args: &[&str], expected: &str) -> Option<Verdict> {
+    if op == "refstats" {
+        let (v, u, b, aba) = (REF_VALIDATED.with(Cell::get), REF_USED.with(Cell::get), REF_BROKEN.with(Cell::get), ABA_RUNS.with(Cell::get));
+        let text = format!("ok native reference (lane membership + stable sort / first extreme): compared with the model on {v} cases of this run ({b} disagreements), used in place of the model on {u} cases; A-B-A re-runs {aba}");
+        eprintln!("C10 {}", &text[3..]);
+        if expected != "ref" { return None; }
+        return Some(if b > 0 || (u > 0 && v < 1000) { Verdict::Mismatch { observed: text, detail: "the native reference was used without (enough) validation against the model in the same run".into() } } else { Verdict::Match(text) });
+    }
+    LAST_RAW.with(|l| *l.borrow_mut() = None);
+    let mut verdict = if is_typed(op) { typed_dispatch(op, args, expected, false)? } else {
+        let observed = base_observe(op, args)?;
+        if let Some(nat) = base_native(op, args) {
+            bump(&REF_VALIDATED);
+            if !(nat == expected || (class_of(&nat) == "err" && class_of(expected) == "err")) {
+                bump(&REF_BROKEN);
+                return Some(Verdict::Mismatch { observed: "n/a".into(), detail: format!("HARNESS: the native reference says `{}`, the model `{}`", truncate(&nat, 300), truncate(expected, 300)) });
+            }
+        }
+        LAST_RAW.with(|l| *l.borrow_mut() = Some(observed.clone()));
+        compare_default(observed, expected)
     };
-    Some(compare_default(observed, expected))
+    // A-B-A: the previous case is run again after this one and must answer exactly as before
+    let prev = PREV.with(|p| p.borrow_mut().take());
+    if let (Verdict::Match(_) | Verdict::Open(_), Some((pop, pargs, ptext))) = (&verdict, &prev) {
+        let pa: Vec<&str> = pargs.iter().map(String::as_str).collect();
+        bump(&ABA_RUNS);
+        if let Some(again) = probe_case(pop, &pa) {
+            if &again != ptext {
+                verdict = Verdict::Mismatch { observed: truncate(&again, 2000), detail: format!("A-B-A: after this case the PREVIOUS case `{pop} {}` answers differently; before: `{}`", truncate(&pargs.join(" "), 600), truncate(ptext, 600)) };
+            }
+        }
+    }
+    let mine = LAST_RAW.with(|l| l.borrow_mut().take());
+    let size = args.iter().map(|a| a.len()).max().unwrap_or(0);
+    if let (Some(t), true) = (mine, size < 40000) { PREV.with(|p| *p.borrow_mut() = Some((op.to_string(), args.iter().map(|x| x.to_string()).collect(), t))); }
+    Some(verdict)
 }
 
 /// non-trivial: the lane has at least two elements and is not already in strictly increasing order
